@@ -230,6 +230,9 @@ impl Screen {
         }
 
         (self.lines, self.columns) = (lines, columns);
+        // The cursor restored above was clamped against the old size.
+        self.ensure_hbounds();
+        self.ensure_vbounds(None);
     }
 
     // Ensure the cursor is within horizontal screen bounds."""
